@@ -95,6 +95,9 @@ func (s *smtSession) eval(t Term) (string, error) {
 		return "", err
 	}
 	r, err := s.readSexp()
+	if os.Getenv("GOVC_DEBUG_CEX") != "" {
+		fmt.Fprintf(os.Stderr, "eval %s => %s (%v)\n", t, r, err)
+	}
 	if err != nil {
 		return "", err
 	}
@@ -245,6 +248,31 @@ func (r *reifier) str(t Term) string {
 	if n > 48 {
 		n = 48
 	}
+	// the function converts this string to runes: give it the rune count of the model (the solver knows
+	// nothing about UTF-8, so the bytes of the model cannot be used)
+	for _, rc := range r.vc.runeConvs {
+		if rc[0] != t {
+			continue
+		}
+		if k, ok := r.s.evalInt(sx("s_len", rc[1])); ok && k > 0 && k < n && n <= 4*k {
+			var sb strings.Builder
+			left, runes := n, k
+			for runes > 0 {
+				// bytes for this rune: as many as needed so that the rest still fits
+				w := left - (runes - 1)
+				if w > 4 {
+					w = 4
+				}
+				if w < 1 {
+					w = 1
+				}
+				sb.WriteString([]string{"a", "\u00e9", "\u3042", "\U0001F600"}[w-1])
+				left -= w
+				runes--
+			}
+			return sb.String()
+		}
+	}
 	b := make([]byte, n)
 	for i := range b {
 		c, ok := r.s.evalInt(sx("sat", t, IntLit(int64(i))))
@@ -313,15 +341,17 @@ func (r *reifier) value(t Term, typ types.Type, depth int) string {
 		el := u.Elem()
 		if _, isStruct := el.Underlying().(*types.Struct); isStruct {
 			r.stmts = append(r.stmts, fmt.Sprintf("%s := &%s{}", name, r.typeStr(el)))
-			sv := vc.structAt(vc.entry, IntLit(ref), el)
-			r.fillStruct(name, sv, el, depth+1)
+			r.fillStructAt(name, IntLit(ref), el, depth+1)
 			return name
 		}
 		// pointer to a cell
 		cn, cs := vc.e.cellArr(el)
 		r.stmts = append(r.stmts, fmt.Sprintf("%s := new(%s)", name, r.typeStr(el)))
-		ev := r.value(Sel(vc.arrIn(vc.entry, cn, cs), IntLit(ref)), el, depth+1)
-		r.stmts = append(r.stmts, fmt.Sprintf("*%s = %s", name, ev))
+		_ = cs
+		if a0 := sym(cn + "!0"); vc.declared[a0] {
+			ev := r.value(Sel(a0, IntLit(ref)), el, depth+1)
+			r.stmts = append(r.stmts, fmt.Sprintf("*%s = %s", name, ev))
+		}
 		return name
 	case *types.Struct:
 		name := r.newVar()
@@ -342,9 +372,14 @@ func (r *reifier) value(t Term, typ types.Type, depth int) string {
 			n = 0
 		}
 		en, es := vc.e.elemArr(u.Elem())
-		E := vc.arrIn(vc.entry, en, es)
+		_ = es
+		E := sym(en + "!0")
 		var elems []string
 		for j := int64(0); j < n; j++ {
+			if !vc.declared[E] {
+				elems = append(elems, r.zero(u.Elem()))
+				continue
+			}
 			elems = append(elems, r.value(Sel(Sel(E, IntLit(arr)), IntLit(off+j)), u.Elem(), depth+1))
 		}
 		return r.typeStr(typ) + "{" + strings.Join(elems, ", ") + "}"
@@ -362,8 +397,12 @@ func (r *reifier) value(t Term, typ types.Type, depth int) string {
 		r.stmts = append(r.stmts, fmt.Sprintf("%s := %s{}", name, r.typeStr(typ)))
 		if kb, ok := u.Key().Underlying().(*types.Basic); ok && kb.Info()&types.IsString != 0 && depth <= 6 {
 			dn, vn, ds, vs := vc.e.mapArrs(u)
-			D := Sel(vc.arrIn(vc.entry, dn, ds), IntLit(ref))
-			V := Sel(vc.arrIn(vc.entry, vn, vs), IntLit(ref))
+			_, _ = ds, vs
+			if !vc.declared[sym(dn+"!0")] || !vc.declared[sym(vn+"!0")] {
+				return name
+			}
+			D := Sel(sym(dn+"!0"), IntLit(ref))
+			V := Sel(sym(vn+"!0"), IntLit(ref))
 			for _, l := range r.lits {
 				lt := vc.strLits[l]
 				if in, ok := r.s.evalBool(Sel(D, lt)); ok && in {
@@ -406,7 +445,52 @@ func (r *reifier) value(t Term, typ types.Type, depth int) string {
 	return r.zero(typ)
 }
 
+// fillStructAt fills the fields of the object at heap reference ref from the entry versions of the field
+// arrays; a field whose array the verification condition never mentions is unconstrained and left zero.
+func (r *reifier) fillStructAt(name string, ref Term, typ types.Type, depth int) {
+	vc := r.vc
+	st, ok := typ.Underlying().(*types.Struct)
+	if !ok {
+		return
+	}
+	for i := 0; i < st.NumFields(); i++ {
+		f := st.Field(i)
+		if f.Name() == "_" || (!f.Exported() && f.Pkg() != vc.e.tpkg) {
+			continue
+		}
+		ft := f.Type()
+		if !r.accessible(ft) {
+			continue
+		}
+		if _, isStruct := ft.Underlying().(*types.Struct); isStruct {
+			// embedded / nested struct value: its fields live at an embedded pointer
+			key := vc.e.typeName(typ) + "." + f.Name()
+			if vc.declared[sym("emb:"+key)] {
+				r.fillStructAt(name+"."+f.Name(), sx(sym("emb:"+key), ref), ft, depth)
+			}
+			continue
+		}
+		switch ft.Underlying().(type) {
+		case *types.Signature, *types.Chan:
+			continue
+		}
+		n, _, _ := vc.e.fieldArr(typ, i)
+		a0 := sym(n + "!0")
+		if !vc.declared[a0] {
+			continue
+		}
+		ev := r.value(Sel(a0, ref), ft, depth)
+		if ev == "nil" || ev == r.zero(ft) {
+			continue
+		}
+		r.stmts = append(r.stmts, fmt.Sprintf("%s.%s = %s", name, f.Name(), ev))
+	}
+}
+
 func (r *reifier) fillStruct(name string, sv Term, typ types.Type, depth int) {
+	if !r.vc.declaredSort(r.vc.e.structSort(typ)) {
+		return
+	}
 	vc := r.vc
 	si := vc.e.structs[vc.e.structSort(typ)]
 	for i, f := range si.fields {
@@ -451,7 +535,13 @@ func (vc *VC) tryCounterexample(ob *Obligation, attempt int) *Cex {
 	}
 	head := script[:cut]
 	// diversification of later attempts: small strings and slices
-	if attempt > 0 {
+	{
+		// string parameters are reified up to 48 bytes: keep the model inside that bound (the inputs must
+		// still satisfy the function's preconditions), shorter for later attempts
+		bound := 40
+		if attempt > 0 {
+			bound = 3 + 3*attempt
+		}
 		for _, p := range fn.Params {
 			t := vc.val[p]
 			if t == "" {
@@ -460,7 +550,7 @@ func (vc *VC) tryCounterexample(ob *Obligation, attempt int) *Cex {
 			switch p.Type().Underlying().(type) {
 			case *types.Basic:
 				if p.Type().Underlying().(*types.Basic).Info()&types.IsString != 0 {
-					head += fmt.Sprintf("(assert (<= (slen %s) %d))\n", t, 3+3*attempt)
+					head += fmt.Sprintf("(assert (<= (slen %s) %d))\n", t, bound)
 				}
 			}
 		}
@@ -603,4 +693,23 @@ func runOverlayTest(repo, name, src, run string, timeout time.Duration) (string,
 		<-done
 	}
 	return string(out), err
+}
+
+// declaredSort: the datatype of a struct sort is part of this VC's script (its constructor or sort name occurs).
+func (vc *VC) declaredSort(sort string) bool {
+	si := vc.e.structs[sort]
+	if si == nil {
+		return false
+	}
+	for _, d := range vc.decls {
+		if strings.Contains(d, sort) || strings.Contains(d, si.ctor) {
+			return true
+		}
+	}
+	for _, it := range vc.items {
+		if strings.Contains(it.fact, si.ctor) || strings.Contains(it.fact, sort) {
+			return true
+		}
+	}
+	return false
 }
